@@ -21,6 +21,9 @@ checks = {
  "C06": dict(level=EXPL, ref="§C06", tech="bounded-exhaustive enumeration of type positions x type forms (byte equality of typed vs untyped twin), js-vs-ts loader equality over the JS space, enum constant-expression grammar executed against reference emit",
    text="80 type positions x (113 type forms + hole-forms nested once) x {ts,tsx,mts}: Transform(typed)==Transform(untyped twin), also minified; the C01 expression/statement space and 43 contextual keywords x 27 follower contexts compile identically under js/ts and jsx/tsx; all enum initialisers of depth<=2 over the constant-expression grammar (regular, const, cross-module inlined) plus namespace/parameter-property/class-field-semantics cases executed in V8 against TypeScript's reference emit",
    note="typed programs are valid TypeScript by construction (no independent TS parser available offline); experimentalDecorators not covered; `a<b>(c)` token runs and unused imports excluded as documented"),
+ "C08": dict(level="model_checking", ref="§C08", tech="stateless model checking of the real code: source-instrumented cooperative scheduler (every go statement, mutex, wait group, once, atomic, channel op, sleep) + deviation-bounded DFS over schedules, sharded over 16 processes",
+   text="the real api.Build, re-compiled from /repo's working tree through an automatic instrumenter, runs under a scheduler that owns all goroutine interleavings; all schedules within the deviation bound (quick 1, thorough 2: preemptions and non-default picks at blocking points) around three default policies are executed for four module graphs (splitting+CSS+assets, mangle-props with three entries, failing entries+warnings, inject+glob); every execution must yield the identical observation (outputs, hashes, metafile, mangle cache, ordered diagnostics); deadlocks and panics are violations; a found difference is replayed before it is reported",
+   note="sequentially consistent scheduler (no weak memory); Go map iteration order not controlled (replay divergence is an infrastructure error, not a verdict); serve_other.go is outside the instrumented set"),
  "C13": dict(level=EXPL, ref="§C13", tech="bounded-exhaustive enumeration of token words (small-scope model checking of the lexer/parser/printer state machine) with V8 as reference grammar",
    text="all token words up to length 3 (thorough 4) over a 100+ token context-sensitive alphabet; each word is run through the real esbuild and decided against V8 (accept/reject agreement, output validity per goal under 5 configurations, fixed point T(T(x))==T(x))",
    note="V8 of Node 20 is the reference grammar; inputs V8 rejects are outside the quantifier"),
@@ -32,6 +35,7 @@ m = {
    "baseline_off_cmd": "cd /repo && GOFLAGS=-mod=mod go test -vet=off -count=1 -timeout 25m ./...", "source_commits": [], "add_only": True},
  "engines": [
   {"name": "verifh", "path": "/verif/h", "serves_properties": sorted(checks), "kind_free_text": "Go bounded-exhaustive enumerators + drivers over the real esbuild API, built by overlay from /repo's working tree"},
+  {"name": "vsync+instr+explore", "path": "/verif/sched", "serves_properties": ["C08", "C20"], "kind_free_text": "source instrumenter (go/ast) + cooperative scheduler runtime + deviation-bounded DFS explorer for the real esbuild code"},
   {"name": "noderun", "path": "/verif/js/worker.js", "serves_properties": sorted(checks), "kind_free_text": "persistent V8 oracle workers (syntax check, execution with probe log and universal logging proxies)"},
  ],
  "checks": [], "not_applicable": [],
